@@ -1,6 +1,7 @@
 """Per-property check definitions live in checklib/props/Cxx.py (CHECK, MANIFEST); this module has the
 generic pipeline they are built from and discovers them."""
 import importlib
+import re
 import os
 import pkgutil
 
@@ -83,7 +84,7 @@ MANIFEST_TABLE = {}
 def _discover():
     from . import props
     for m in pkgutil.iter_modules(props.__path__):
-        if m.name.startswith("C"):
+        if re.fullmatch(r"C\d{2,3}", m.name):
             mod = importlib.import_module("checklib.props." + m.name)
             CHECKS[m.name] = mod.CHECK
             MANIFEST_TABLE[m.name] = mod.MANIFEST
